@@ -73,6 +73,9 @@ def units(tier, seed):
     for spec in shapes():
         for asg in assignments(spec, tier):
             us.append({"kind": "weights", "spec": spec, "weights": asg, "extractions": 3})
+            if any(asg.get(a[0]) is not None and (a[2] == "decorator" or a[1] is not None) for a in spec["abstract"]):
+                # the two decorators stacked the other way round: @abstract above @weight(w)
+                us.append({"kind": "weights", "spec": spec, "weights": asg, "extractions": 2, "order": "abstract-last"})
     for spec in shapes()[:3]:
         for zero in [p[0] for p in spec["prods"]]:
             us.append({"kind": "reweight", "spec": spec, "zero": zero})
@@ -96,7 +99,7 @@ def _terminates_without_zero(spec, asg) -> bool:
     return all(d[n] < R.INF for n in live)
 
 
-def build_weighted(spec, asg):
+def build_weighted(spec, asg, order=None):
     s = dict(spec)
     s["prods"] = [[p[0], p[1], asg.get(p[0]), p[3]] for p in spec["prods"]]
     b = G.build(s)
@@ -105,6 +108,10 @@ def build_weighted(spec, asg):
     for a in spec["abstract"]:
         if asg.get(a[0]) is not None:
             weight(asg[a[0]])(b.classes[a[0]])
+            if order == "abstract-last" and (a[2] == "decorator" or a[1] is not None):
+                from geneticengine.grammar.decorators import abstract
+
+                abstract(b.classes[a[0]])
     return b
 
 
@@ -112,7 +119,7 @@ def run_weights(unit) -> UnitResult:
     r = UnitResult()
     spec, asg = unit["spec"], unit["weights"]
     view = R.SpecView(spec)
-    b = build_weighted(spec, asg)
+    b = build_weighted(spec, asg, unit.get("order"))
     w0 = {"unit": unit}
     try:
         prev = None
@@ -160,7 +167,7 @@ def run_weights(unit) -> UnitResult:
 def run_chooser(unit) -> UnitResult:
     r = UnitResult()
     spec, asg = unit["spec"], unit["weights"]
-    b = build_weighted(spec, asg)
+    b = build_weighted(spec, asg, unit.get("order"))
     w0 = {"unit": unit}
     try:
         try:
